@@ -177,6 +177,7 @@ class SimRadio:
         self.ack_listen_from = 0
         self.ack_inflight = {}
         self.irq_waiters = []
+        self.rx_waiters = []
         self.irq_log = None
         self._irq = True
         self.carrier = False
@@ -709,6 +710,9 @@ class SimRadio:
         if not dup:
             self.rx_fifo.append((pipe, pkt.payload))
             self._set_flags(0x40)
+            if self.rx_waiters:
+                for n in list(self.rx_waiters):
+                    n.irq_fired()
         if aa and not pkt.noack:
             self._send_ack(pkt, pipe, dup, feat, dynpd)
         return "dup:%d" % pipe if dup else "rx:%d" % pipe
@@ -766,6 +770,9 @@ class SimRadio:
             return False
         self.rx_fifo.append((pipe, bytes(payload)))
         self._set_flags(0x40)
+        if self.rx_waiters:
+            for n in list(self.rx_waiters):
+                n.irq_fired()
         return True
 
 
